@@ -4,6 +4,12 @@ case kinds
   {"kind": "its-exh"|"its-exh15"|"its-rand"|"its-incons"|"its-toplevel"|"regress", "I": <json ITS graph>, "pi": {old: new}?}
   {"kind": "pair-exh1"|"pair-exh2"|"pair-rand", "G": ..., "H": ...}            ITS = ITSGraph(G, H)
   {"kind": "corpus"|"rw-renum"|..., "rsmi": "...", "orig": "..."?}             ITS = rsmi_to_its(rsmi)
+  any of the above + "ia": bool, "bal": bool      ITS = ITSGraph(G, H, ignore_aromaticity=ia, balance_its=bal)      (model: run_pair_o)
+  any of the above + "helpers": [radii]           find_unequal_order_edges, remove_normal_edges, extract_k(radii)   (model: run_helpers)
+  {"kind": "lre", "I": <ITS in networkx iteration order>, "lre": true}         longest_radius_extension, extract_k(-1)  (model: run_lre)
+  {"kind": "x-exh"|"x-rand"|..., "X": <ITS with optional labels / is_mtg>, "keys": [...]}
+                                                  get_rc(X, element_key=keys) under the four (disconnected, keep_mtg) settings + centre of the centre (run_opts)
+  {"kind": "list", "Is": [<ITS>...], "k": n_knn}  paralle_context_extraction over [{"ITS": .., "id": i}]              (model: run_list)
 Observable: centre (nodes with attributes, edges with order pair and standard_order), the centre of the centre,
 node set and edge set of extract_k(ITS, k) for k = 0..3, the full radius-1 context with attributes.
 """
@@ -20,44 +26,73 @@ COQ_HEADER = ("From Coq Require Import List NArith ZArith.\nFrom SK Require Impo
 SHARD = 400
 IMPL_TIMEOUT = 1500
 COQ_TIMEOUT = 900
-RULE = ("ITS graphs (synthetic, ITSGraph of synthetic pairs, rsmi_to_its of corpus reactions and rewritings), radii 0..3; "
-        "non-trivial = standard_order consistent ITS whose centre is non-empty and strictly smaller than the ITS; "
-        "distinct = distinct case inputs")
+RULE = ("ITS graphs (synthetic, ITSGraph of synthetic pairs with and without ignore_aromaticity/balance_its, rsmi_to_its of corpus reactions and "
+        "rewritings), radii 0..3 (helpers: 0,1,4,7 and -1); get_rc under all four (disconnected, keep_mtg) settings and several element_key "
+        "lists; lists of reaction dicts; non-trivial = ITS of a recognised class (standard_order = difference, or the ignore_aromaticity rule) "
+        "whose centre is non-empty and strictly smaller than the ITS / an option that changes the centre / a list of >= 2 / an extension path "
+        "of >= 2 atoms; distinct = distinct case inputs")
 EXHAUSTIVE = {"quick": True, "thorough": True}
-EXPLANATION = ("Exhaustive sub-space (both tiers): ALL ITS graphs on 1..3 nodes over top-level element in {C,H} and per-pair state in "
-               "{absent} + ({0,1,2}^2 minus (0,0)) (2 + 36 + 5832 graphs, standard_order = difference), and all 2-node ITS graphs over orders "
-               "{0,1,1.5,2}; ITS of all 32 one-node pairs of C01's alphabet.  Sampled: C01's two-node pair scope (quick: PRNG sample, "
-               "thorough: all 16384), random tree-like ITS graphs up to 10 nodes, ITS graphs whose standard_order is NOT the difference "
-               "(as the additive glue branch of the reactor can produce), ITS graphs whose top-level element differs from typesGH, corpus "
-               "reactions with renumbering / re-rooting / fragment shuffle / reversal.  Theorems: centre edges = changed or H-H bonds, centre "
-               "nodes = their endpoints with the selected ITS labels, idempotence, equivariance, context = distance ball + induced subgraph, chain.")
+EXPLANATION = ("Exhaustive sub-spaces (both tiers): ALL ITS graphs on 1..3 nodes over top-level element in {C,H} and per-pair state in "
+               "{absent} + ({0,1,2}^2 minus (0,0)) (2 + 36 + 5832 graphs, standard_order = difference), all 2-node ITS graphs over orders "
+               "{0,1,1.5,2} with standard_order = difference and with the ignore_aromaticity rule; ITS of all 32 one-node pairs of C01's alphabet; "
+               "for get_rc's options ALL 2-node graphs over node kinds {C,H,charge-changing C/H, C/H without typesGH} x pair state {absent} + "
+               "4 order pairs x is_mtg {absent,False,True} and ALL 3-node graphs over {C,H,charge-changing C} x {absent, unchanged, unchanged+is_mtg, "
+               "changed}^3, each under the four (disconnected, keep_mtg) settings.  Sampled: C01's two-node pair scope, random tree-like ITS "
+               "graphs up to 12 nodes, ITS graphs whose standard_order is NOT the difference, ITS graphs whose top-level element differs from "
+               "typesGH, random option graphs up to 9 nodes with missing labels and seven element_key lists, ITSGraph(ignore_aromaticity=True, "
+               "balance_its) of random/malformed pairs and corpus reactions, RadiusExpand helpers (find_unequal_order_edges, remove_normal_edges, "
+               "extract_k for radii 0,1,4,7; n_knn=-1 with longest_radius_extension on graphs in networkx iteration order incl. rings with many "
+               "equally long paths), lists of 1..5 reaction dicts through paralle_context_extraction, corpus reactions with renumbering (also into "
+               "10..99 and 100..999), ring closures rewritten as %1d, re-rooting, fragment shuffle, reversal.  Theorems: see LEVEL_TEXT.")
 TRUSTED_BASE = [
     "Coq 8.16.1 kernel + vm_compute (no native_compute); stdlib only",
-    "hand-written models coq/model/C02_Model.v (get_rc, find_nearest_neighbors, extract_k) and C01_Model.v (ITS datatypes, its_construct) "
-    "tied to synkit/Graph/ITS/its_decompose.py and synkit/Graph/Context/radius_expand.py by the per-run correspondence",
-    "harness encoders harness/gen/c01_enc.py (nx ITS graph -> Gallina literal, half-unit orders, element interning; attributes -> tok)",
-    "networkx Graph.subgraph / neighbors semantics",
+    "hand-written models coq/model/C02_Model.v (get_rc, get_rc with element_key/disconnected/keep_mtg, find_nearest_neighbors, extract_k incl. "
+    "n_knn=-1, find_unequal_order_edges, remove_normal_edges, longest_radius_extension with fuel |nodes|+1, context extraction over a list, "
+    "ITSGraph with ignore_aromaticity/balance_its) and C01_Model.v (ITS datatypes, its_construct) tied to synkit/Graph/ITS/its_decompose.py, "
+    "synkit/Graph/Context/radius_expand.py and synkit/Graph/ITS/its_construction.py by the per-run correspondence",
+    "harness encoders harness/gen/c01_enc.py and harness/gen/c02_enc.py (nx ITS graph -> Gallina literal, half-unit orders, element interning, "
+    "absent attributes -> None, element_key -> seven booleans; attributes -> tok)",
+    "networkx Graph.subgraph / neighbors / copy semantics; for n_knn=-1 the adjacency iteration order of networkx (cases are fed in networkx "
+    "iteration order so that the model's edge-list order is the implementation's)",
+    "joblib.Parallel(n_jobs=1) runs the generator sequentially in-process",
     "rsmi_to_its(core=...) for corpus cases goes through RDKit + MolToGraph (C01's modelled-not-verified half) before the graphs reach the model",
 ]
 ASSUMPTIONS = [
-    "ITS nodes carry element, charge, atom_map, typesGH (and either all or none of aromatic/hcount/neighbors); edges carry order=(a,b) and a numeric standard_order",
+    "ITS nodes carry a subset of element, charge, atom_map, typesGH, aromatic, hcount, neighbors (round-1 populations: all four main labels); "
+    "edges carry order=(a,b) as a tuple, a numeric standard_order and optionally a boolean is_mtg",
     "the property's 'order differs' is identified with 'standard_order != 0' only on ITS graphs where standard_order = order_G - order_H "
-    "(std_consistent: proved for every output of ITSGraph, C01_union); on other graphs only the model/implementation correspondence is checked",
-    "get_rc with default arguments (disconnected=False, keep_mtg=False); extract_k with n_knn >= 0 (n_knn = -1 is not modelled)",
+    "(std_consistent: proved for every output of ITSGraph, C01_union / C02_construct_default); on ITSGraph(ignore_aromaticity=True) graphs "
+    "(ia_consistent, proved: C02_ia_construct) the oracle and theorem C02_rc_edges_ia demand '|difference| >= 1' instead and the property's clause "
+    "is refuted by design (C02_rc_edges_ia_refuted); on other graphs only the model/implementation correspondence is checked",
+    "element_key is modelled as the set of the seven attribute names it contains (order and duplicates are not observable; other strings select nothing)",
+    "n_knn = -1 is modelled only on graphs fed in networkx iteration order (the path chosen among equally long ones depends on adjacency order)",
 ]
 TESTED_NOT_PROVED = [
-    "isomorphic centres under atom-map renumbering of a reaction STRING (through rsmi_to_its): oracle on every renumbered corpus case; "
-    "the graph-level statement is theorem C02_rc_equivariant",
-    "radii beyond 3 are covered by the theorems (all k) but not by the correspondence",
+    "isomorphic centres under atom-map renumbering of a reaction STRING (through rsmi_to_its; multi-digit maps, %1d ring closures): oracle on every "
+    "renumbered corpus case; the graph-level statement is theorem C02_rc_equivariant",
+    "idempotence and equivariance of get_rc under non-default options (the centre of the centre is compared with the model on every option case)",
+    "longest_radius_extension: no theorem about the path itself (model with fuel compared on every 'lre' case; oracle: simple path of unchanged bonds "
+    "from a centre atom, at least as long as the longest such path from the first centre atom); C02_extract_k_minus1 relates the context to its length",
+    "get_rc / the RadiusExpand helpers do not mutate their input; context_extraction copies the dict (oracle on every option / helper / list case)",
+    "isinstance(order, tuple) in find_unequal_order_edges: ITS graphs whose order is a list are outside the model (the library never builds them)",
 ]
-LEVEL_TEXT = ("Machine-checked proof (Coq) over an executable model of get_rc and RadiusExpand.extract_k: on every well-formed ITS graph whose "
-              "standard_order is the order difference the centre contains a bond iff its two orders differ or both atoms are hydrogens, contains "
-              "exactly the endpoints of these bonds with the ITS labels (element, charge, typesGH, atom_map), get_rc is idempotent and commutes "
-              "with every injective renumbering; for every k >= 1 the radius-k context is the induced subgraph on exactly the atoms at distance "
-              "<= k from the centre, and centre within context(1) within context(2) ... within ITS. The model is compared with the Python code "
-              "on every run (exhaustive <= 3-node scope, random and inconsistent ITS graphs, corpus reactions and rewritings, radii 0..3).")
-LEVEL_NOTE = ("ITS graphs with standard_order != order difference are outside the theorems' hypothesis (std_consistent) and are checked by "
-              "correspondence only; the RDKit front end used to obtain corpus ITS graphs is C01's monitored oracle.")
+LEVEL_TEXT = ("Machine-checked proof (Coq, 24 theorems, all closed under the global context) over an executable model of get_rc and RadiusExpand: on every "
+              "well-formed ITS graph whose standard_order is the order difference the centre contains a bond iff its two orders differ or both atoms "
+              "are hydrogens (for ignore_aromaticity ITS graphs: iff the orders differ by at least 1, with a witness that 'differs' alone fails), "
+              "contains exactly the endpoints of these bonds with the ITS labels (element, charge, typesGH, atom_map), get_rc is idempotent and "
+              "commutes with every injective renumbering; for every k >= 1 the radius-k context is the induced subgraph on exactly the atoms at "
+              "distance <= k from the centre, and centre within context(1) within context(2) ... within ITS.  Options: exact characterisation of the "
+              "bonds and of the atoms with their labels for every element_key / disconnected / keep_mtg (keep_mtg adds exactly the flagged bonds; "
+              "disconnected adds exactly the charge-changing atoms and makes the centre the induced subgraph; the default centre is a subgraph of "
+              "every variant; with default options the general function is get_rc).  Helpers: find_unequal_order_edges is a subset of the centre "
+              "atoms, equal without unchanged H-H bonds, strict in general; remove_normal_edges keeps exactly the standard_order != 0 bonds; "
+              "extract_k option handling incl. n_knn=-1; list extraction is element-wise.  The model is compared with the Python code on every run "
+              "(exhaustive <= 3-node scopes for the default and for the options, random/inconsistent/ignore_aromaticity ITS graphs, corpus "
+              "reactions and rewritings, radii 0..7 and -1, lists).")
+LEVEL_NOTE = ("ITS graphs whose standard_order follows neither rule are outside the hypotheses of the 'order differs' theorems and are checked by "
+              "correspondence only; on ignore_aromaticity ITS graphs the property text's clause 'order differs => in the centre' is false by design "
+              "of the option (the check demands the |difference| >= 1 version there); the RDKit front end used to obtain corpus ITS graphs is "
+              "C01's monitored oracle; n_knn=-1 is compared only on graphs fed in networkx iteration order.")
 
 
 def worker_init():
@@ -604,7 +639,7 @@ def distribution(cases, obss):
             incons += 1
         if "ia" in c and c["ia"] and any(e[4] == 0 and e[2] != e[3] for e in o[3][1]["__set__"]):
             ia_zeroed += 1
-    return dict(kinds=kinds, option_changes_centre=opt_eff, longest_extension_lengths=lre_len,
+    return dict(option_changes_centre=opt_eff, longest_extension_lengths=lre_len,
                 ignore_aromaticity_its_with_zeroed_half_order_change=ia_zeroed, context3_sizes=sizes, centre_sizes=rcs, strictly_growing_to_radius_3=grow, centre_with_unchanged_HH_bond=hh,
                 centre_with_inconsistent_standard_order=incons, empty_centre=empty)
 
@@ -676,6 +711,11 @@ def gen_exhaustive_its():
         for s in st15:
             cases.append(dict(kind="its-exh15", I={"nodes": [[2, its_node(2, els[0], extras=True)], [1, its_node(1, els[1], extras=True)]],
                                                    "edges": [[2, 1, its_edge(*s)]]}))
+    for els in itertools.product(E.ELEMS2, repeat=2):
+        for (a, b) in st15:
+            d = a - b
+            cases.append(dict(kind="its-exh15-ia", I={"nodes": [[2, its_node(2, els[0], extras=True)], [1, its_node(1, els[1], extras=True)]],
+                                                      "edges": [[2, 1, its_edge(a, b, 0 if abs(d) < 1 else d)]]}))
     return cases
 
 
@@ -746,10 +786,10 @@ def gen_pairs(rng, tier):
     ex1 = [c for c in small if c["kind"] == "exh1"]
     ex2 = [c for c in small if c["kind"] == "exh2"]
     if tier == "quick":
-        ex2 = rng.sample(ex2, 1200)
+        ex2 = rng.sample(ex2, 600)
     for c in ex1 + ex2:
         cases.append(dict(kind="pair-" + c["kind"], G=c["G"], H=c["H"]))
-    for c in P1.gen_random(rng, 400 if tier == "quick" else 6000, maxn=10):
+    for c in P1.gen_random(rng, 300 if tier == "quick" else 6000, maxn=10):
         cases.append(dict(kind="pair-rand", G=c["G"], H=c["H"]))
     for c in P1.gen_malformed(rng, 150 if tier == "quick" else 1500):
         cases.append(dict(kind="pair-malformed", G=c["G"], H=c["H"]))
@@ -814,7 +854,7 @@ def gen_helpers(rng, tier, exh):
     cases = []
     small = [c for c in exh if len(c["I"]["nodes"]) <= 2]
     three = [c for c in exh if len(c["I"]["nodes"]) == 3]
-    for c in small + (rng.sample(three, 500) if q else three):
+    for c in small + (rng.sample(three, 250) if q else three):
         cases.append(dict(kind="help-exh", I=c["I"], helpers=HELPER_RADII))
     for kind in ("its-rand", "its-incons"):
         for c in gen_random_its(rng, 250 if q else 3000, kind, maxn=12):
@@ -839,12 +879,12 @@ def gen_ia(rng, tier):
     """ITSGraph(G, H, ignore_aromaticity=True[, balance_its=True]) of synthetic pairs and corpus reactions"""
     q = tier == "quick"
     cases = []
-    for c in P1.gen_random(rng, 450 if q else 5000, maxn=8):
+    for c in P1.gen_random(rng, 300 if q else 5000, maxn=8):
         cases.append(dict(kind="pair-ia", G=c["G"], H=c["H"], ia=True, bal=rng.random() < 0.5))
     for c in P1.gen_malformed(rng, 100 if q else 1000):
         cases.append(dict(kind="pair-ia-malformed", G=c["G"], H=c["H"], ia=rng.random() < 0.7, bal=True))
     small = [c for c in P1.gen_exhaustive_small(rng) if c["kind"] == "exh2"]
-    for c in rng.sample(small, 300 if q else 4000):
+    for c in rng.sample(small, 200 if q else 4000):
         cases.append(dict(kind="pair-ia-exh2", G=c["G"], H=c["H"], ia=True, bal=rng.random() < 0.5))
     for c in P1.gen_random(rng, 150 if q else 1500, maxn=8):
         cases.append(dict(kind="help-pair-ia", G=c["G"], H=c["H"], ia=True, bal=False, helpers=HELPER_RADII))
@@ -873,8 +913,8 @@ def gen_cases(tier, rng):
     exh = gen_exhaustive_its()
     cases = list(exh)
     q = tier == "quick"
-    cases += gen_random_its(rng, 600 if q else 12000, "its-rand")
-    cases += gen_random_its(rng, 400 if q else 6000, "its-incons")
+    cases += gen_random_its(rng, 450 if q else 12000, "its-rand")
+    cases += gen_random_its(rng, 300 if q else 6000, "its-incons")
     cases += gen_random_its(rng, 200 if q else 2000, "its-toplevel")
     cases += gen_pairs(rng, tier)
     cases += gen_corpus(rng, 40 if q else None, 1 if q else 2)
